@@ -12,7 +12,7 @@ from .. import common, effects, guards, mir, panics, shared
 from ..report import short_loc
 
 QUICK = ["default"]
-THOROUGH = ["default", "nostd", "alloc", "unstable", "eio_both", "eio_both_nostd", "eio", "eioa"]
+THOROUGH = ["default", "nostd", "alloc", "unstable", "eio_both", "eio_both_nostd", "eio", "eioa", "default_dbg"]
 
 EXPLANATION = (
     "Decides which public entry points can reach an explicit panic (assert!/expect/unimplemented/panic!) on a "
@@ -54,7 +54,12 @@ def run(ctx, progs):
     ctx.rule("ARITH1", "Add/Mul on caller-supplied values only at reviewed sites")
     ctx.assumptions.append("INV (size <= N, N > 0 => start < N): preservation checked by INV1 under C04")
     ctx.assumptions.append("core's RangeBounds impls for RangeTo/RangeFull/RangeFrom behave as documented")
+    ctx.rule("DBGASSERT1", "thorough tier, debug build: every debug assertion is proved unreachable from the public entries, except the "
+             "reviewed value-level ones (the crate's own stated beliefs)")
     for cfg, prog in progs.items():
+        if cfg == "default_dbg":
+            dbgassert1(ctx, prog, cfg)
+            continue
         pan(ctx, prog, cfg)
         eng = shared.run_mod1(prog)
         shared.report_requires(ctx, eng, "MOD1", cfg)
@@ -270,3 +275,33 @@ def pan4(ctx, prog, cfg):
                   "`%s` can return normally without evaluating all of its %d documented assertions (decision blocks %s): some "
                   "arguments for which a panic is documented are silently accepted" % (short, want, guards_),
                   "every return passes the %d assertion decisions bb%s" % (len(guards_), guards_), cfg)
+
+
+def dbgassert1(ctx, prog, cfg):
+    """With debug assertions compiled in, a debug_assert! is an explicit panic site. 'Every other
+    operation returns normally' then requires each of them to be unreachable: decided by the same
+    caller-context projection as PAN1. The ones that state value-level facts are tabled."""
+    from .. import tables
+    from collections import Counter
+
+    R = panics.Reach(prog)
+    sites = set()
+    for f in prog.public_entries():
+        if f.has_mir:
+            sites |= R.sites(f.short)
+    total = sum(len(panics.direct_sites(f)) for f in prog.fns.values())
+    documented = set()
+    for v in DOCUMENTED.values():
+        documented |= v
+    cnt = Counter((s[0], s[2]) for s in sites if s[0] not in documented and not (s[0] in TYPE_EXCLUDED and s[2] == "unimplemented"))
+    for (fn, label), c in sorted(cnt.items()):
+        ent = tables.DEBUG_ASSERT_UNDECIDED.get((fn, label))
+        f = prog.fns[fn]
+        ctx.check(ent is not None and c <= ent[0], "DBGASSERT1", fn, "%s x%d reachable in the debug build" % (label, c), f.loc,
+                  "`%s` contains %d `%s` site(s) that can fire for some call of a public entry in a build with debug assertions%s: an "
+                  "operation documented as total panics (or a stated belief of the crate no longer follows from its callers' guards)"
+                  % (fn, c, label, " (reviewed: %d)" % ent[0] if ent else ""),
+                  "reviewed value-level assertion(s): %s" % (ent[1] if ent else ""), cfg)
+    ctx.check(total - len(sites) >= 35, "DBGASSERT1", "*", "debug assertions proved unreachable", "?",
+              "only %d of %d explicit panic sites of the debug build are proved unreachable" % (total - len(sites), total),
+              "%d of %d explicit panic sites of the debug build are infeasible under every caller's guard facts" % (total - len(sites), total), cfg)
